@@ -189,6 +189,9 @@ def judge_case(case, r):
         fails.append("duplicate pair in overlaps_aabb_tree answer")
     elif any(i < 0 or i >= len(b1) or j < 0 or j >= len(b2) for i, j in pairs):
         fails.append("pair index out of range")
+    elif any(i >= len(ext1) or j >= len(ext2) for i, j in pairs):
+        fails.append(f"a reported index has no entry in external_data_list (lengths {len(ext1)}, {len(ext2)}; "
+                     f"{len(b1)}, {len(b2)} boxes): the index -> external data map is broken")
     else:
         got = sorted((b1[i], -1 if ext1[i] is None else ext1[i], b2[j], -1 if ext2[j] is None else ext2[j])
                      for i, j in pairs)
@@ -337,7 +340,10 @@ def run(tier, seed, replay=None):
     # property oracle on every implementation answer
     bad = []
     for c, r in zip(cases, results):
-        f = judge_case(c, r)
+        try:
+            f = judge_case(c, r)
+        except Exception as e:  # noqa  (state so inconsistent that the oracle cannot read it)
+            f = [f"implementation state cannot be interpreted by the oracle: {type(e).__name__}: {str(e)[:200]}"]
         if f:
             bad.append((c, f))
     # model on the same cases
@@ -406,7 +412,10 @@ def run(tier, seed, replay=None):
         res2 = run_impl_cases(extra, "search")
         R.cov["search_evaluations"] = len(extra)
         for c, r in zip(extra, res2):
-            f = judge_case(c, r)
+            try:
+                f = judge_case(c, r)
+            except Exception as e:  # noqa  (the implementation's state is so inconsistent that the oracle cannot read it)
+                f = [f"implementation state cannot be interpreted by the oracle: {type(e).__name__}: {str(e)[:200]}"]
             if f:
                 R.failure("; ".join(f[:3]), c, site="AabbTree")
                 break
